@@ -573,3 +573,156 @@ M.contract(P_CEP + '.parse',
                                               if result.element_type is ElementType.EMPTY
                                               else is_comment(result.source.lines[j])),
            }, raises_only=())
+
+
+# ---- opaque section element parsers; the parser that tries a sequence of parsers
+
+M.assume('A section element parser that returns None or raises UnrecognizedSectionElementSourceError has not consumed '
+         'anything (documented at SectionElementParser.parse and UnrecognizedSectionElementSourceError; proved of '
+         'StandardSyntaxCommentAndEmptyLineParser.parse; assumed of opaque parsers).')
+
+UNRECOGNIZED = UnrecognizedSectionElementSourceError
+
+
+class ParsedElementI(Interface):
+    """the element an opaque parser returns: some ParsedSectionElement (which subclass is decided where asked)"""
+    target_class = pse.ParsedSectionElement
+    attrs = {'source': LINE_SEQUENCE}
+
+
+def _is_unrecognized(interp, e):
+    return interp.truth(interp.reg.opaque_isinstance(interp, e, UNRECOGNIZED))
+
+
+def section_parser_model(make_element):
+    def model(interp, self, args, kwargs):
+        fs_location_info, source = args[0], args[1]
+        st = interp.st
+        k = st.choose(4)
+        if k == 0:            # not recognized: None, nothing consumed
+            return None
+        if k == 1:            # not recognized: the exception for that, nothing consumed
+            e = PARSER_EXCEPTION.make(interp, 'exc')
+            st.assume(_is_unrecognized(interp, e))
+            raise PyRaise(e)
+        orig = interp.reg.ghost_env['orig']
+        started_at = interp.call(off_of, [source, orig], {})
+        havoc_source_forward(interp, source)
+        if k == 2:            # recognized but erroneous (or any other failure): may have consumed
+            e = PARSER_EXCEPTION.make(interp, 'exc')
+            st.assume(interp.not_(_is_unrecognized(interp, e)))
+            raise PyRaise(e)
+        r = make_element(interp)
+        st.ghost['parsed-element'] = r
+        st.ghost['parsed-from'] = started_at
+        return r
+
+    return model
+
+
+class SectionElementParserI(Interface):
+    """section_element_parsing.SectionElementParser: environment (the parsers of the phases)"""
+    target_class = SectionElementParser
+    methods = {'parse': Method(model=section_parser_model(lambda interp: Iface(ParsedElementI).make(interp, 'element')))}
+
+
+SEQ_PARSER = Inst(sep.ParserFromSequenceOfParsers, _parsers_to_try=ListOf(Iface(SectionElementParserI)))
+
+M.contract(P_SEP + ':ParserFromSequenceOfParsers.parse',
+           params=dict(self=SEQ_PARSER, fs_location_info=Any_, source=PARSE_SOURCE), ghosts=dict(orig=Str),
+           requires=lambda source, orig: RI(source, orig),
+           old=lambda source, orig: (snap(source), off_of(source, orig)),
+           modifies=dict(source=PS_FRAME),
+           returns=Opt(Iface(ParsedElementI)),
+           raises={PARSER_EXCEPTION: {'ensures': lambda source, orig, old, exc:
+                   RI(source, orig) and off_of(source, orig) >= old[1]
+                   and ((not isinstance(exc, UNRECOGNIZED)) or unchanged(source, old[0]))}},
+           ensures={
+               'RI-and-not-moved-back': lambda source, orig, old: RI(source, orig) and off_of(source, orig) >= old[1],
+               'none-consumes-nothing': lambda result, source, old: result is not None or unchanged(source, old[0]),
+               'an-element-is-what-one-parser-returned-having-started-at-the-original-position':
+                   lambda result, ghost, old: result is None or (result is ghost['parsed-element']
+                                                                 and ghost['parsed-from'] == old[1]),
+           }, raises_only=())
+M.loop(P_SEP + ':ParserFromSequenceOfParsers.parse', 0,
+       invariant=lambda source, old, last_error:
+       unchanged(source, old[0]) and (last_error is None or isinstance(last_error, UNRECOGNIZED)),
+       modifies={'last_error': Opt(PARSER_EXCEPTION), 'element': 'local', 'parser': 'local', 'ex': 'local',
+                 'source._column_index': Int, 'source.source_string': Str,
+                 'source._current_line_number': Opt(Int), 'source._current_line_text': Opt(Str)})
+
+
+# ============================================================================== the document parser
+# Lists of section elements are symbolic lists of objects (by handle); `is_item` compares an element of such a
+# list with an object.
+from contracts.common import is_item
+from exactly_lib.section_document.impl import document_parser as dp
+
+P_DP = 'exactly_lib.section_document.impl.document_parser'
+
+ELEMENTS = MListOf(Any_)
+
+
+def snapshot(xs):
+    return list(xs)
+
+
+def same_items(a, b):
+    return len(a) == len(b) and forall_range(0, len(b), lambda j: a[j] == b[j])
+
+
+def is_concat(a, x, y):
+    """a == x ++ y"""
+    return len(a) == len(x) + len(y) \
+        and forall_range(0, len(x), lambda j: a[j] == x[j]) \
+        and forall_range(0, len(y), lambda j: a[len(x) + j] == y[j])
+
+
+# ---- _add_raw_doc: proved for dictionaries over (any subsets of) three keys, in every combination.  The body
+# treats the keys of to_add one by one and independently; three keys show every interaction (a key in both, in
+# one only, in none; before / after another key).
+
+KEYS3 = ('A', 'B', 'C')
+
+
+def _mk_raw_doc3(interp, name):
+    d = {}
+    for k in KEYS3:
+        if interp.st.choose(2) == 1:
+            d[k] = ELEMENTS.make(interp, '%s[%s]' % (name, k))
+    return d
+
+
+RAW_DOC3 = Custom(_mk_raw_doc3)
+
+
+def _merged_as_specified(added_to, to_add, old):
+    old_added, old_to_add = old
+    for k in KEYS3:
+        if k in old_added and k in old_to_add:
+            if not is_concat(added_to[k], old_added[k], old_to_add[k]):
+                return False
+        elif k in old_added:
+            if not same_items(added_to[k], old_added[k]):
+                return False
+        elif k in old_to_add:
+            if not (k in added_to and same_items(added_to[k], old_to_add[k])):
+                return False
+        elif k in added_to:
+            return False
+    return True
+
+
+M.contract(P_DP + ':_add_raw_doc', params=dict(added_to=RAW_DOC3, to_add=RAW_DOC3),
+           old=lambda added_to, to_add: ({k: snapshot(v) for k, v in added_to.items()},
+                                         {k: snapshot(v) for k, v in to_add.items()}),
+           ensures={
+               'per-section: old elements followed by the added ones': lambda added_to, to_add, old:
+               _merged_as_specified(added_to, to_add, old),
+               'sections keep their order, new ones follow in the order of the added document':
+                   lambda added_to, old:
+                   list(added_to.keys()) == list(old[0].keys()) + [k for k in old[1].keys() if k not in old[0]],
+               'the added document is not changed': lambda to_add, old:
+               list(to_add.keys()) == list(old[1].keys())
+               and all(same_items(to_add[k], old[1][k]) for k in old[1].keys()),
+           }, raises_only=())
